@@ -32,6 +32,10 @@ def jobs(tier):
     for g in ("I1024", "I2048", "I3072", "Ed25519"):
         for n in lens:
             js.append(("job_p2s", dict(_name="password_to_scalar %s len=%d" % (g, n), gname=g, n=n)))
+    for g in ("toy11", "toy257", "toy1019", "sp61"):      # custom groups whose p, q are not byte aligned
+        for n in (0, 2, 65):
+            js.append(("job_p2s", dict(_name="password_to_scalar %s len=%d" % (g, n), gname=g, n=n)))
+            js.append(("job_arb_int", dict(_name="arbitrary_element %s seedlen=%d" % (g, n), gname=g, n=n)))
     for g in ("I1024", "I2048", "I3072"):
         for n in ([0, 1, 9, 65, 130] if tier == "quick" else [0, 1, 2, 9, 63, 64, 65, 128, 129, 200]):
             js.append(("job_arb_int", dict(_name="arbitrary_element %s seedlen=%d" % (g, n), gname=g, n=n)))
@@ -44,7 +48,11 @@ def jobs(tier):
 def _group(gname):
     if gname == "Ed25519":
         return loader.MODS["ed25519_group"].Ed25519Group, loader.MODS["ed25519_basic"].L
-    g = getattr(loader.MODS["groups"], gname)
+    if hasattr(loader.MODS["groups"], gname):
+        g = getattr(loader.MODS["groups"], gname)
+    else:
+        from checks.realtier import custom_world
+        g = custom_world(gname)[0]
     return g, g.q
 
 
@@ -234,15 +242,20 @@ def job_constants(J):
 
 # ------------------------------------------------------------------ oracles
 def _refgroup(group):
-    from checks import refimpl as R
+    from checks import refimpl as R, common as C
     if group == "Ed25519":
         return R.RefEdGroup()
+    if group in C.TOYS:
+        return R.RefIntGroup(*C.TOYS[group])
     d = PC.INT_GROUPS[group]
     return R.RefIntGroup(d["p"], d["q"], d["g"])
 
 
 def _real(group):
     from spake2 import groups, ed25519_group
+    from checks import common as C
+    if group in C.TOYS:
+        return C.toy_group(group)
     return ed25519_group.Ed25519Group if group == "Ed25519" else getattr(groups, group)
 
 
@@ -274,7 +287,7 @@ def oracle_arb_int(group, seed):
         want = rg.arbitrary(s)
         if e.to_bytes() != rg.enc(want):
             return (True, "arbitrary_element(%r) on %s differs from the published construction" % (s, group))
-        if not rg.is_member(want) or want == 1:
+        if not rg.is_member(want) or (want == 1 and group not in ("toy11", "toy257", "toy1019")):
             return (True, "arbitrary_element(%r) is not a non-identity subgroup member" % (s,))
     return (False, "ok")
 
